@@ -13,7 +13,7 @@ import (
 // it with the proved reference serialiser and compare with the bytes this package emitted and
 // (b) evaluate the decidable well-formedness check: together they establish that the generated
 // image lies in the domain of theorem C01_save_identity. ok=false: the image uses a feature
-// outside the proved grammar (extended volume header, a volume fiano does not parse, …).
+// outside the proved grammar (a volume fiano does not parse, a file of 16 MiB or more, …).
 func SpecString(r *Region) (string, bool) {
 	var sb strings.Builder
 	type pair struct {
@@ -42,7 +42,7 @@ func SpecString(r *Region) (string, bool) {
 }
 
 func specVol(sb *strings.Builder, v *Vol) bool {
-	if v.ExtHeader || (v.FSGUID != FFS2 && v.FSGUID != FFS3) {
+	if v.FSGUID != FFS2 && v.FSGUID != FFS3 {
 		return false
 	}
 	img, _ := EmitVol(v)
@@ -55,10 +55,24 @@ func specVol(sb *strings.Builder, v *Vol) bool {
 		pad int
 	}
 	var items []item
-	off := 72
+	hl := 72 + 8*len(v.ExtraBlocks)
+	off := hl
+	more := fmt.Sprintf("M %x", len(v.ExtraBlocks))
+	for _, b := range v.ExtraBlocks {
+		more += fmt.Sprintf(" %x %x", b[0], b[1])
+	}
+	xh := "N"
+	if v.ExtHeader {
+		end := hl + 20 + len(v.ExtData)
+		off = align(end, 8)
+		xh = fmt.Sprintf("X %s %s %s", H(v.ExtName[:]), H(v.ExtData), H(img[end:off]))
+	}
 	for _, f := range v.Files {
 		off = align(off, 8)
 		hl := 24
+		if f.Secs == nil && f.LargeForm {
+			hl = 32
+		}
 		if a := AttrAlign(f.Attr); a != 1 {
 			dataOff := align(off+hl, a)
 			start := dataOff - hl
@@ -75,7 +89,7 @@ func specVol(sb *strings.Builder, v *Vol) bool {
 		e := &emitter{}
 		off += len(e.file(f, 0))
 	}
-	fmt.Fprintf(sb, " V %s %s %x %x %x %x %x %x %x", H(v.Zero[:]), H(v.FSGUID[:]), v.Attrs, v.Reserved, v.Revision, count, bsize, length, len(items))
+	fmt.Fprintf(sb, " V %s %s %x %x %x %x %x %x %s %s %x", H(v.Zero[:]), H(v.FSGUID[:]), v.Attrs, v.Reserved, v.Revision, count, bsize, length, more, xh, len(items))
 	for _, it := range items {
 		if it.f == nil {
 			pf := PadFile(it.pad)
@@ -89,7 +103,11 @@ func specVol(sb *strings.Builder, v *Vol) bool {
 			if len(fb) >= 0xFFFFFF {
 				return false
 			}
-			fmt.Fprintf(sb, " FO %s %x %x %x %x %x %s", H(f.GUID[:]), fb[16], fb[17], f.Type, fb[19], f.State, H(f.Body))
+			tag := "FO"
+			if f.LargeForm {
+				tag = "FL"
+			}
+			fmt.Fprintf(sb, " %s %s %x %x %x %x %x %s", tag, H(f.GUID[:]), fb[16], fb[17], f.Type, fb[19], f.State, H(f.Body))
 			continue
 		}
 		fmt.Fprintf(sb, " FS %s %x %x %x %x", H(f.GUID[:]), f.Type, f.Attr&^1, f.State, len(f.Secs))
